@@ -16,6 +16,11 @@ g("ExpandStrSymbol", ["ExpandStrSymbol"], unwind=44, unwindset=["@ExpandStrSymbo
   bounded="destination buffer of 16 bytes, literal text of 0..24 characters in front of one {expression}")
 g("PUSHV_POPV", ["PushSymbol", "PopSymbol"], unwind=18, defs_extra=["-DVERIF_PUSHV"], drop_unused=True, replace_calls=["ExpandStrSymbol:verif_ExpandStrSymbol"],
   bounded="one symbol, the default stack, two nested PUSHV")
+g("ChkTmp2", ["ChkTmp2", "AddTmpSymLog"], unwind=50, defs_extra=["-DVERIF_TMPSYM"], drop_unused=True, cflags=["-include", "$VERIF/include/verif_ascii_ctype.h"],
+  bounded="names of 0..5 characters over '-', '+', '/', blank and a letter; counters and log arbitrary")
+for f in ("strmaxprep2", "strmaxprep"):
+    GROUPS.append(G("str_" + f, "harness/C13/h_strutil.c", "h_" + f, enforce=[], link=[], stubs=["stubs/gerr.c"], unwind=26, timeout=600, dfcc=False, drop_unused=True, object_bits=12,
+                    functions=[f], bounded="destination buffer of 1..8 bytes, prepended string of 0..9 characters"))
 GROUPS.append(G("sym_CodePPSyms", "harness/C10/h_asmallg.c", "h_CodePPSyms", enforce=[], link=["asmdef.c", "tempresult.c", "strcomp.c"], stubs=["stubs/gerr.c"], unwind=12, timeout=600,
                 dfcc=False, drop_unused=True, object_bits=12, defs=["-DVERIF_PPSYMS"], functions=["CodePPSyms", "CodePPSyms_SearchSym"],
                 bounded="argument list of three names (first and third optionally section-qualified), empty FORWARD/PUBLIC/GLOBAL lists"))
